@@ -21,6 +21,7 @@ mod verif_c13_split {
     /// every sequence of up to 5 inserts: the first `split_index` items are exactly the values
     /// inserted before the split, in insertion order; the rest are exactly the others
     #[kani::proof]
+    #[kani::solver(kissat)]
     #[kani::unwind(7)]
     fn splitvec_insert() {
         let mut v = SplitVec::<u8>::default();
@@ -54,7 +55,7 @@ KANI_FILTER = r"""
 #[cfg(kani)]
 mod verif_c13_filter {
     use super::*;
-    static mut VERDICT: [bool; 6] = [false; 6];
+    static mut VERDICT: [bool; 4] = [false; 4];
     static mut BASE: usize = 0;
     /// stand-in for Filter::is_match: the filter stored at position p of the split vector matches iff VERDICT[p]
     fn verdict_of(f: &Filter, _s: &str) -> bool {
@@ -62,20 +63,21 @@ mod verif_c13_filter {
         unsafe { VERDICT[p] }
     }
     /// THE RULE: selected iff no skip filter matches and (there are no positive filters or
-    /// at least one matches) - for every order in which up to 5 filters were added and every
+    /// at least one matches) - for every order in which up to 3 filters were added and every
     /// combination of per-filter verdicts. (That skip filters are exactly the entries before the
     /// split index, whatever the insertion order, is verif_c13_split::splitvec_insert.)
     #[kani::proof]
-    #[kani::unwind(8)]
+    #[kani::solver(kissat)]
+    #[kani::unwind(5)]
     #[kani::stub(Filter::is_match, verdict_of)]
     fn is_match_rule() {
-        let verdict: [bool; 6] = kani::any();
+        let verdict: [bool; 4] = kani::any();
         unsafe { VERDICT = verdict; }
-        let n: usize = kani::any(); kani::assume(n <= 5);
+        let n: usize = kani::any(); kani::assume(n <= 3);
         let mut fs = FilterSet::default();
-        fs.reserve_exact(5);
+        fs.reserve_exact(3);
         let mut n_skip = 0usize;
-        for k in 0..5 {
+        for k in 0..3 {
             if k < n {
                 let f = Filter::Exact(String::new());
                 if kani::any() { fs.include(f); } else { fs.exclude(f); n_skip += 1; }
@@ -85,13 +87,14 @@ mod verif_c13_filter {
         unsafe { BASE = fs.filters.all().as_ptr() as usize; }
         let got = fs.is_match("some::path");
         let (mut skip_hit, mut pos_hit) = (false, false);
-        for p in 0..5 { if p < n && verdict[p] { if p < n_skip { skip_hit = true; } else { pos_hit = true; } } }
+        for p in 0..3 { if p < n && verdict[p] { if p < n_skip { skip_hit = true; } else { pos_hit = true; } } }
         let any_pos = n_skip < n;
         assert!(got == (!skip_hit && (!any_pos || pos_hit)));
-        kani::cover!(n == 5 && skip_hit); kani::cover!(n == 0); kani::cover!(any_pos && !pos_hit && !skip_hit);
+        kani::cover!(n == 3 && skip_hit); kani::cover!(n == 0); kani::cover!(any_pos && !pos_hit && !skip_hit);
     }
     /// --exact: whole-string equality
     #[kani::proof]
+    #[kani::solver(kissat)]
     #[kani::unwind(5)]
     fn exact_is_whole_string_equality() {
         let a: [u8; 2] = kani::any(); kani::assume(a[0] < 128 && a[1] < 128);
@@ -135,8 +138,8 @@ mod verif_c13_tree {
             assert!(b.is_some() == (t[1] || t[2]));
             if let Some(args) = b {
                 assert!(args.len() == t[1] as usize + t[2] as usize);
-                assert!(args.iter().any(|a| std::ptr::eq(**a, &ARGS[0])) == t[1]);
-                assert!(args.iter().any(|a| std::ptr::eq(**a, &ARGS[1])) == t[2]);
+                assert!(args.iter().any(|a| std::ptr::eq(*a, &ARGS[0])) == t[1]);
+                assert!(args.iter().any(|a| std::ptr::eq(*a, &ARGS[1])) == t[2]);
             }
             assert!(children.len() == t[0] as usize + (t[1] || t[2]) as usize);
         }
@@ -148,7 +151,8 @@ mod verif_c13_tree {
     /// nothing selected lies below. (format! is stubbed out here, so the questions are identified
     /// by their order; the path TEXT is checked by retain_small_tree_paths in the thorough tier.)
     #[kani::proof]
-    #[kani::unwind(6)]
+    #[kani::solver(kissat)]
+    #[kani::unwind(4)]
     #[kani::stub(alloc::fmt::format, no_format)]
     fn retain_small_tree_structure() {
         let t: [bool; 3] = kani::any();
@@ -162,6 +166,7 @@ mod verif_c13_tree {
 
     /// the same tree with the real format!: the questions are exactly the paths m::a, m::b::1, m::b::22
     #[kani::proof]
+    #[kani::solver(kissat)]
     #[kani::unwind(12)]
     fn retain_small_tree_paths() {
         let t: [bool; 3] = kani::any();
@@ -185,7 +190,7 @@ def build(S: Sources) -> Unit:
         S(f)
     hs = [
         KaniHarness("verif_c13_split::splitvec_insert", "bounded", bound="up to 5 inserts, every before/after pattern", covers="SplitVec::insert / split_index / all"),
-        KaniHarness("verif_c13_filter::is_match_rule", "bounded", bound="up to 5 filters (any skip/positive pattern and insertion order), symbolic per-filter verdicts",
+        KaniHarness("verif_c13_filter::is_match_rule", "bounded", bound="up to 3 filters (any skip/positive pattern and insertion order), symbolic per-filter verdicts",
                     covers="FilterSet::include / exclude / is_match"),
         KaniHarness("verif_c13_filter::exact_is_whole_string_equality", "bounded", bound="candidate strings of up to 2 ASCII bytes against the filter \"ab\"", covers="Filter::is_match (Exact)"),
         KaniHarness("verif_c13_tree::retain_small_tree_structure", "bounded", bound="one tree: group m { a, b[1, 22] }, all 8 verdict combinations; format! stubbed", covers="EntryTree::retain (per-case decision, pruning of empty parents)"),
@@ -194,7 +199,7 @@ def build(S: Sources) -> Unit:
     return Unit(
         property_id="C13",
         verus=[],
-        kani=KaniSpec(injections={SPLIT: KANI_SPLIT, FILTER: KANI_FILTER, TREE: KANI_TREE}, harnesses=hs,
+        kani=KaniSpec(flags=["--no-memory-safety-checks", "--no-assertion-reach-checks"], injections={SPLIT: KANI_SPLIT, FILTER: KANI_FILTER, TREE: KANI_TREE}, harnesses=hs,
                       timeout_s=1500, stubs_note=["alloc::fmt::format -> empty string in verif_c13_tree::retain_small_tree_structure (path text is then not checked there)", "Filter::is_match -> per-filter symbolic verdict (in verif_c13_filter::is_match_rule only; the Exact arm is checked separately, the Regex arm delegates to the regex-lite dependency)"]),
         undecided_clauses=[
             "regular-expression search semantics of Filter::Regex (regex-lite dependency, not under contract)",
